@@ -136,19 +136,33 @@ def q_of_det(det):
 
 
 # ---------------------------------------------------------------- suite det
+def reload_outcome(f):
+    try:
+        r2 = f()
+        return outcome(lambda: r2.to_dict())
+    except SigmaError as e:
+        return {"err": type(e).__name__, "msg": str(e)[:120], "stage": "reload"}
+    except Exception as e:  # noqa
+        return {"crash": type(e).__name__, "msg": str(e)[:120], "stage": "reload"}
+
+
 def run_det(case):
     det = case["det"]
-    r = SigmaDetections.from_dict(copy.deepcopy(det))       # not loadable: the runner records the exception, case skipped
-    d1 = outcome(lambda: r.to_dict())
-    res = {"d1": d1, "q1": q_of_det(det)}
+    arg = copy.deepcopy(det)
+    r = SigmaDetections.from_dict(arg)       # not loadable: the runner records the exception, case skipped
+    raw = None
+    def first():
+        nonlocal raw
+        raw = r.to_dict()
+        return raw
+    d1 = outcome(first)
+    # from_dict gets the caller's dict by reference: the argument after the call is part of the observation
+    res = {"d1": d1, "q1": q_of_det(det), "a1": jsonable(arg)}
     if "ok" in d1:
-        try:
-            r2 = SigmaDetections.from_dict(copy.deepcopy(d1["ok"]))
-            res["d2"] = outcome(lambda: r2.to_dict())
-        except SigmaError as e:
-            res["d2"] = {"err": type(e).__name__, "msg": str(e)[:120], "stage": "reload"}
-        except Exception as e:  # noqa
-            res["d2"] = {"crash": type(e).__name__, "msg": str(e)[:120], "stage": "reload"}
+        # the written dict itself is loaded (no copy), looked at afterwards, and loaded a second time
+        res["d2"] = reload_outcome(lambda: SigmaDetections.from_dict(raw))
+        res["w1"] = {"ok": jsonable(raw)}
+        res["d2b"] = reload_outcome(lambda: SigmaDetections.from_dict(raw))
         res["q2"] = q_of_det(d1["ok"])
     return res
 
@@ -239,11 +253,18 @@ def q_of_docs(base, doc):
     return query_of(go)
 
 
+def canon(x):
+    return json.dumps(x, sort_keys=True, default=repr)
+
+
 def run_doc(case):
     cls = KINDS[case["kind"]]
     doc = undate(case["doc"])
     base = [undate(b) for b in case.get("base", [])]
-    obj = cls.from_dict(copy.deepcopy(doc))               # not loadable: case skipped
+    arg = copy.deepcopy(doc)
+    a0 = canon(arg)
+    obj = cls.from_dict(arg)               # not loadable: case skipped
+    pur = [[a0, canon(arg)]]               # argument of from_dict before / after the call
     shapes = {f: shape(getattr(obj, f)) for f in META}
     custom = list(obj.custom_attributes.keys())
     d1raw = None
@@ -252,7 +273,7 @@ def run_doc(case):
         d1raw = obj.to_dict()
         return d1raw
     d1 = outcome(first)
-    res = {"shapes": shapes, "custom": custom, "d1": d1, "q1": q_of_docs(base, doc)}
+    res = {"shapes": shapes, "custom": custom, "d1": d1, "q1": q_of_docs(base, doc), "pur": pur, "again": []}
     if "ok" in d1:
         res["keys"] = list(d1raw.keys())
         # the nested writers: log source and correlation section (keys written, in order)
@@ -263,21 +284,27 @@ def run_doc(case):
                           "keys": list(d1raw["logsource"].keys())}
         else:
             res["sub"] = {"shapes": [], "custom": [], "flag": bool(obj.generate), "keys": list(d1raw["correlation"].keys())}
-        res["d2"] = outcome(lambda: cls.from_dict(copy.deepcopy(d1raw)).to_dict())
-        res["q2"] = q_of_docs(base, d1raw)
-        def viayaml():
-            y = yaml.safe_dump(d1raw, sort_keys=False, allow_unicode=True)
-            return cls.from_yaml(y)
+        # the written dict ITSELF is used from here on (no copies): loaded, looked at, loaded again, dumped as YAML
+        w0 = canon(d1raw)
+        res["d2"] = outcome(lambda: cls.from_dict(d1raw).to_dict())
+        pur.append([w0, canon(d1raw)])
+        res["again"].append(outcome(lambda: cls.from_dict(d1raw).to_dict()))
+        pur.append([w0, canon(d1raw)])
+        res["again"].append(outcome(lambda: cls.from_yaml(yaml.safe_dump(d1raw, sort_keys=False, allow_unicode=True)).to_dict()))
+        res["again"].append(outcome(lambda: SigmaCollection.from_dicts([d1raw], collect_filters=True, resolve_references=False)))
+        pur.append([w0, canon(d1raw)])
+        res["again"][-1] = res["again"][-1] if "ok" not in res["again"][-1] else res["d2"]   # only: the collection loader accepts it and leaves it alone
+        res["q2"] = q_of_docs(base, d1["ok"])
         objy = None
         def third():
             nonlocal objy
-            objy = viayaml()
+            objy = cls.from_yaml(yaml.safe_dump(d1["ok"], sort_keys=False, allow_unicode=True))
             return objy.to_dict()
         res["dy"] = outcome(third)
         res["qy"] = q_of_docs(base, objy.to_dict()) if objy is not None else "ERR:noobj"
         # object equality as observed through the public comparison (reported, not part of the verdict)
         try:
-            res["same_obj"] = bool(cls.from_dict(copy.deepcopy(d1raw)) == obj)
+            res["same_obj"] = bool(cls.from_dict(copy.deepcopy(d1["ok"])) == obj)
         except Exception as e:  # noqa
             res["same_obj"] = "ERR:" + type(e).__name__
     return res
